@@ -43,7 +43,7 @@ def address_taken(prog, reach):
 
 
 def run(ctx, rule, entries, *, lossy=False, entry_facts=None, lemmas=None, trusts=None, scope=None, skip=None,
-        unsafe=True, lossy_filter=None, kinds=None, init_class="CONSTINIT", floor_bodies=0, desc=None):
+        unsafe=True, lossy_filter=None, kinds=None, init_class="CONSTINIT", floor_bodies=0, desc=None, invariants=None):
     """entries: body paths. entry_facts: path -> {arg: {...}}. lemmas / trusts: (path, site_key or kind-prefix) -> (name, reason).
     scope: predicate(body) -> bool; obligations in bodies outside the scope are listed as notes only.
     Returns list of Outcome."""
@@ -58,7 +58,7 @@ def run(ctx, rule, entries, *, lossy=False, entry_facts=None, lemmas=None, trust
     entries = [e for e in entries if prog.body(e) is not None]
     dyn, init = cg.reach_split(entries)
     ctx.rule(rule, desc or "every panic/overflow/bounds/unsafe obligation reachable from the entry points is discharged", floor=floor_bodies)
-    eng = Engine(prog)
+    eng = Engine(prog, invariants=invariants)
     taken = address_taken(prog, dyn | init)
     outcomes = []
     n_bodies = 0
